@@ -64,7 +64,6 @@ TABLE = {
 }
 
 DETECTION = {
-    "C07-A2": "missed: the two conditions are equivalent in exact real arithmetic; the defect exists only through the float rounding of 1 - 0.9",
     "C16-B": "missed: dask graph construction is outside the technique (C12 territory)",
     "C02-R2": "not flagged by the C02 check (the kernel zero-fills masked cells, so both placeholder runs agree); caught by the C03 check "
               "(kernel differs from the reference expectile model): HDC_REPO=<worktree> ./check C03 exits 1",
